@@ -9,12 +9,14 @@ use crate::std_ext::*;
 verus! {
 
 // ------------------------------------------------------------------------------ errors
+#[derive(Debug)]
 pub struct StdError { pub msg: String }
 pub type StdResult<T> = core::result::Result<T, StdError>;
 impl StdError {
     #[verifier::external_body]
     pub fn generic_err(msg: impl IntoStr) -> (r: StdError) { unimplemented!() }
 }
+#[derive(Debug)]
 pub struct OverflowError { pub dummy: u8 }
 impl FromSpecImpl<OverflowError> for StdError {
     open spec fn obeys_from_spec() -> bool { false }
@@ -26,6 +28,7 @@ impl From<OverflowError> for StdError {
 }
 
 // ------------------------------------------------------------------------------ Addr
+#[derive(Debug)]
 pub struct Addr(pub String);
 impl Addr {
     #[verifier::external_body]
@@ -83,7 +86,7 @@ impl IntoStr for Addr {
 impl DisplayStr for Addr { open spec fn dview(&self) -> Seq<char> { self.0@ } }
 
 // ------------------------------------------------------------------------------ Uint128
-#[derive(Structural, PartialEq, Eq, Clone, Copy)]
+#[derive(Debug, Structural, PartialEq, Eq, Clone, Copy)]
 pub struct Uint128(pub u128);
 
 pub trait IntoU128: Sized {
@@ -190,7 +193,7 @@ impl IntoStr for Uint128 {
 
 // ------------------------------------------------------------------------------ Decimal
 /// 18 fractional digits; the value is atomics / 10^18.
-#[derive(Structural, PartialEq, Eq, Clone, Copy)]
+#[derive(Debug, Structural, PartialEq, Eq, Clone, Copy)]
 pub struct Decimal(pub u128);
 pub open spec fn DECIMAL_FRACTIONAL() -> nat { 1_000_000_000_000_000_000 }
 pub open spec fn decimal_ratio(a: nat, b: nat) -> nat { (a * DECIMAL_FRACTIONAL()) / b }
@@ -213,6 +216,7 @@ impl Decimal {
 }
 
 // ------------------------------------------------------------------------------ Coin
+#[derive(Debug)]
 pub struct Coin { pub denom: String, pub amount: Uint128 }
 impl Coin {
     #[verifier::external_body]
@@ -232,7 +236,7 @@ impl Clone for Coin {
 
 // ------------------------------------------------------------------------------ Timestamp
 /// nanoseconds since the epoch (timestamp.rs: `Timestamp(Uint64)`)
-#[derive(Structural, PartialEq, Eq, Clone, Copy)]
+#[derive(Debug, Structural, PartialEq, Eq, Clone, Copy)]
 pub struct Timestamp(pub u64);
 impl Timestamp {
     pub const fn from_nanos(n: u64) -> (r: Timestamp) ensures r.0 == n { Timestamp(n) }
@@ -246,6 +250,7 @@ impl Timestamp {
     pub open spec fn secs(self) -> u64 { (self.0 / 1_000_000_000) as u64 }
 }
 
+#[derive(Debug)]
 pub struct IbcTimeout { pub block: Option<u64>, pub timestamp: Option<Timestamp> }
 impl IbcTimeout {
     pub fn with_timestamp(t: Timestamp) -> (r: IbcTimeout)
@@ -257,10 +262,15 @@ impl IbcTimeout {
 }
 
 // ------------------------------------------------------------------------------ Env / MessageInfo
+#[derive(Debug)]
 pub struct BlockInfo { pub height: u64, pub time: Timestamp, pub chain_id: String }
+#[derive(Debug)]
 pub struct TransactionInfo { pub index: u32 }
+#[derive(Debug)]
 pub struct ContractInfo { pub address: Addr }
+#[derive(Debug)]
 pub struct Env { pub block: BlockInfo, pub transaction: Option<TransactionInfo>, pub contract: ContractInfo }
+#[derive(Debug)]
 pub struct MessageInfo { pub sender: Addr, pub funds: Vec<Coin> }
 
 // ------------------------------------------------------------------------------ Storage / Deps
@@ -271,7 +281,7 @@ impl Storage {
 }
 /// Address validity is chain-specific: an uninterpreted predicate.
 pub uninterp spec fn api_addr_valid(s: Seq<char>) -> bool;
-#[derive(Clone, Copy)]
+#[derive(Debug, Clone, Copy)]
 pub struct Api { pub dummy: u8 }
 impl Api {
     #[verifier::external_body]
@@ -291,13 +301,15 @@ impl<'a> DepsMut<'a> {
 }
 
 // ------------------------------------------------------------------------------ messages
-#[derive(Structural, PartialEq, Eq, Clone, Copy)]
+#[derive(Debug, Structural, PartialEq, Eq, Clone, Copy)]
 pub enum ReplyOn { Always, Error, Success, Never }
+#[derive(Debug)]
 pub struct Binary(pub Vec<u8>);
 impl Binary {
     #[verifier::external_body]
     pub fn from(v: Vec<u8>) -> (r: Binary) ensures r.0 == v { unimplemented!() }
 }
+#[derive(Debug)]
 pub enum BankMsg {
     Send { to_address: String, amount: Vec<Coin> },
     Burn { amount: Vec<Coin> },
@@ -305,6 +317,7 @@ pub enum BankMsg {
 /// `Stargate` is the real variant.  The `Osmo*`/`Tf*`/`Swap*` variants stand for
 /// `CosmosMsg::Stargate { type_url: <T>::TYPE_URL, value: <T>.encode() }` produced by
 /// osmosis-std's `From<T> for CosmosMsg`; the proto encoding of those types is osmosis-std's.
+#[derive(Debug)]
 pub enum CosmosMsg {
     Bank(BankMsg),
     Stargate { type_url: String, value: Binary },
@@ -317,7 +330,9 @@ pub enum CosmosMsg {
     SwapIn(crate::osmosis_std::types::osmosis::poolmanager::v1beta1::MsgSwapExactAmountIn),
     SwapOut(crate::osmosis_std::types::osmosis::poolmanager::v1beta1::MsgSwapExactAmountOut),
 }
+#[derive(Debug)]
 pub struct SubMsg { pub id: u64, pub msg: CosmosMsg, pub gas_limit: Option<u64>, pub reply_on: ReplyOn }
+#[derive(Debug)]
 pub struct Attribute { pub key: String, pub value: String }
 #[verifier::external_body]
 pub fn attr(k: impl IntoStr, v: impl IntoStr) -> (r: Attribute) { unimplemented!() }
@@ -342,6 +357,7 @@ pub open spec fn plain_sub(m: CosmosMsg) -> SubMsg {
 
 /// Only the message list is modelled; attributes, events and data do not reach the chain's
 /// state machine.
+#[derive(Debug)]
 pub struct Response { pub messages: Vec<SubMsg> }
 impl Response {
     pub open spec fn msgs(self) -> Seq<SubMsg> { self.messages@ }
@@ -372,8 +388,11 @@ impl Response {
 }
 
 // ------------------------------------------------------------------------------ reply
+#[derive(Debug)]
 pub struct SubMsgResponse { pub events: Vec<u8>, pub data: Option<Binary> }
+#[derive(Debug)]
 pub enum SubMsgResult { Ok(SubMsgResponse), Err(String) }
+#[derive(Debug)]
 pub struct Reply { pub id: u64, pub result: SubMsgResult }
 
 /// JSON rendering of a query response: opaque, total for the repo's response types.
@@ -387,7 +406,7 @@ pub fn to_json_string<T>(v: &T) -> (r: StdResult<String>)
     ensures r is Ok
 { unimplemented!() }
 
-#[derive(Structural, PartialEq, Eq, Clone, Copy)]
+#[derive(Debug, Structural, PartialEq, Eq, Clone, Copy)]
 pub enum Order { Ascending, Descending }
 
 } // verus!
